@@ -1,14 +1,26 @@
 (* C01: compact literals for the correspondence cases.  The harness writes a batch whose columns
-   are all one-hot as the matrix of the indices of the 1s; [dec] expands it (inside vm_compute)
-   to the nested 0/1 lists the model and the spec work on.  Batches with any other column
-   (malformed inputs, unexpected outputs) are written out in full.  No proofs depend on this. *)
+   are all one-hot over at most 8 symbols as one number per sequence: the base-8 numeral whose
+   q-th digit (least significant first) is the index of the 1 in column q.  [decn] expands it
+   (inside vm_compute) to the nested 0/1 lists the model and the spec work on.  Batches with any
+   other column (malformed inputs, unexpected outputs) are written out in full.  Elaborating the
+   nested list literals, not evaluating model and spec, dominated the cost of a case.  No proof
+   depends on this file. *)
 From TM Require Import Base.Prelude Base.OneHot.
 Open Scope Z_scope.
 
 Definition ohcol (A : nat) (k : Z) : col :=
   map (fun j => if Z.of_nat j =? k then 1 else 0) (seq 0 A).
 
-Definition dec (A : nat) (X : list (list Z)) : batch := map (map (ohcol A)) X.
+Fixpoint digits (L : nat) (n : Z) : list Z :=
+  match L with
+  | O => []
+  | S l => (n mod 8) :: digits l (n / 8)
+  end.
 
-Example dec_example : dec 4 [[0; 3]; [2; 1]] = [[[1;0;0;0]; [0;0;0;1]]; [[0;0;1;0]; [0;1;0;0]]].
+Definition decn (A L : nat) (ns : list Z) : batch :=
+  map (fun n => map (ohcol A) (digits L n)) ns.
+
+(* "AT" / "GC" over {A,C,G,T}: 0 + 3*8 = 24, 2 + 1*8 = 10 *)
+Example decn_example :
+  decn 4 2 [24; 10] = [[[1;0;0;0]; [0;0;0;1]]; [[0;0;1;0]; [0;1;0;0]]].
 Proof. reflexivity. Qed.
